@@ -237,6 +237,11 @@ def build(program):
         if s.get('aux'):
             from spyne.auxproc.sync import SyncAuxProc
             d['__aux__'] = SyncAuxProc()
+        # service-wide header defaults (methods marked 'header_from_service' do not declare headers of their own)
+        if s.get('in_header'):
+            d['__in_header__'] = tuple(b.classes[h] for h in s['in_header'])
+        if s.get('out_header'):
+            d['__out_header__'] = tuple(b.classes[h] for h in s['out_header'])
         for m in s['methods']:
             kw = dict(m.get('kw') or {})
             ret = m.get('ret')
@@ -245,10 +250,10 @@ def build(program):
                     kw['_returns'] = [T(r) for r in ret]
                 else:
                     kw['_returns'] = T(ret)
-            if m.get('in_header'):
+            if m.get('in_header') and not m.get('header_from_service'):
                 hs = [b.classes[h] for h in m['in_header']]
                 kw['_in_header'] = tuple(hs)
-            if m.get('out_header'):
+            if m.get('out_header') and not m.get('header_from_service'):
                 hs = [b.classes[h] for h in m['out_header']]
                 kw['_out_header'] = tuple(hs)
             if m.get('throws'):
